@@ -1,16 +1,17 @@
 #!/bin/sh
 # Builds the harness and pre-builds the tagged / instrumented worker binaries (warms the Go build cache).
+R="${VERIF_ROOT:-/verif}"
 export GOFLAGS=-mod=mod GOPROXY=off
 unset GOSUMDB
-mkdir -p /verif/.work/bin /verif/evidence /verif/replays
-cd /verif/mc || exit 1
-go build -o /verif/.work/bin/check ./cmd/check || exit 1
+mkdir -p $R/.work/bin $R/evidence $R/replays
+cd $R/mc || exit 1
+go build -o $R/.work/bin/check ./cmd/check || exit 1
 for tags in ark_tiny ark_debug ark_tiny,ark_debug; do
-  go build -tags "$tags" -o "/verif/.work/bin/check_$(echo $tags | tr , _)" ./cmd/check || exit 1
+  go build -tags "$tags" -o "$R/.work/bin/check_$(echo $tags | tr , _)" ./cmd/check || exit 1
 done
 # instrumented builds (overlays generated from the current /repo sources)
-go run ./cmd/rewrite -out /verif/.work/ov/sync sync >/dev/null && go build -race -tags verif_sched -overlay /verif/.work/ov/sync/ov.json -o /verif/.work/bin/c13w ./c13w || exit 1
-go run ./cmd/rewrite -out /verif/.work/ov/maps maprange >/dev/null && go build -tags verif_maps -overlay /verif/.work/ov/maps/ov.json -o /verif/.work/bin/check_verif_maps ./cmd/check || exit 1
-go run ./cmd/rewrite -out /verif/.work/ov/gc gc >/dev/null && go build -tags verif_gc -overlay /verif/.work/ov/gc/ov.json -o /verif/.work/bin/check_verif_gc ./cmd/check || exit 1
-go run ./cmd/rewrite -out /verif/.work/ov/time time >/dev/null && go build -tags verif_time -overlay /verif/.work/ov/time/ov.json -o /verif/.work/bin/check_verif_time ./cmd/check || exit 1
+go run ./cmd/rewrite -out $R/.work/ov/sync sync >/dev/null && go build -race -tags verif_sched -overlay $R/.work/ov/sync/ov.json -o $R/.work/bin/c13w ./c13w || exit 1
+go run ./cmd/rewrite -out $R/.work/ov/maps maprange >/dev/null && go build -tags verif_maps -overlay $R/.work/ov/maps/ov.json -o $R/.work/bin/check_verif_maps ./cmd/check || exit 1
+go run ./cmd/rewrite -out $R/.work/ov/gc gc >/dev/null && go build -tags verif_gc -overlay $R/.work/ov/gc/ov.json -o $R/.work/bin/check_verif_gc ./cmd/check || exit 1
+go run ./cmd/rewrite -out $R/.work/ov/time time >/dev/null && go build -tags verif_time -overlay $R/.work/ov/time/ov.json -o $R/.work/bin/check_verif_time ./cmd/check || exit 1
 echo "setup ok"
